@@ -10,7 +10,7 @@ Realisation choices (several concrete forms per abstract construct) live in shap
   var_form    : "global" (variable defined in the module of its reader)
 """
 import os
-from typing import Any, Dict, List, Tuple
+from typing import Optional, Any, Dict, List, Tuple
 
 from .shapes import Shape
 
@@ -126,7 +126,7 @@ def _stmt_lines(shape: Shape, f: str, i: int, s: Dict[str, str], args: Dict[Tupl
     if k == "load":
         return ["    sv.append(dds.load(%r))" % s["p"]]
     # the callee of a keep must be a plain name (documented restriction, UNSUPPORTED_CALLABLE_TYPE)
-    g = names[s["g"]] if k != "keep" else names.get("keep:" + s["g"], names[s["g"]])
+    g = names[s["g"]] if k not in ("keep", "ref") else names.get(k + ":" + s["g"], names[s["g"]])
     if k == "call":
         if s["g"] in shape.real.get("as_class", []):
             return ["    sv.append(%s().run())" % g]
@@ -157,7 +157,8 @@ def _stmt_lines(shape: Shape, f: str, i: int, s: Dict[str, str], args: Dict[Tupl
             "                           %s, sv)))" % lit]
 
 
-def _fun_src(shape: Shape, f: str, prog: Dict[str, Any], names: Dict[str, str]) -> List[str]:
+def _fun_src(shape: Shape, f: str, prog: Dict[str, Any], names: Dict[str, str],
+             local_imports: Optional[List[str]] = None) -> List[str]:
     args = arg_map(prog)
     lines = []
     if shape.dpath[f]:
@@ -172,6 +173,8 @@ def _fun_src(shape: Shape, f: str, prog: Dict[str, Any], names: Dict[str, str]) 
     else:
         lines.append("def %s(%s):" % (f, sig))
     start = len(lines)
+    for li in (local_imports or []):
+        lines.append("    " + li)
     lines.append("    L.hit(%r)" % f)
     lines.append("    b = %d  # c%d" % (prog["body"][f], prog["cos"][f]))
     if f in shape.untracked:
@@ -264,7 +267,7 @@ def files_of(shape: Shape, prog: Dict[str, Any]) -> Dict[str, str]:
                           if s["k"] == "keep" and mods[s["g"]] != mod)
         for g in needed:
             gm = mods[g]
-            if import_form in ("module", "module_as") and g in kept_needed:
+            if import_form in ("module", "module_as", "local") and g in kept_needed:
                 lines.append("from %s import %s as kept_%s" % (gm, g, g))
                 names["keep:" + g] = "kept_" + g
             if g in klass:
@@ -285,6 +288,14 @@ def files_of(shape: Shape, prog: Dict[str, Any]) -> Dict[str, str]:
             elif import_form == "module":
                 lines.append("import %s" % gm)
                 names[g] = gm + "." + g
+            elif import_form == "local":
+                # the module is imported by a statement inside the body of each function that calls into it
+                # (a function passed as a higher-order reference is named plainly: references through a
+                # module attribute are the business of the module / module_as forms)
+                names[g] = gm + "." + g
+                if any(s_["k"] == "ref" and s_["g"] == g for f_ in funs for s_ in shape.stmts[f_]):
+                    lines.append("from %s import %s as ref_%s" % (gm, g, g))
+                    names["ref:" + g] = "ref_" + g
             elif import_form == "module_as":
                 lines.append("import %s as m_%s" % (gm, g))
                 names[g] = "m_%s.%s" % (g, g)
@@ -301,7 +312,11 @@ def files_of(shape: Shape, prog: Dict[str, Any]) -> Dict[str, str]:
         if unrel % 2 == 1:
             order = list(reversed(order))   # "reorder definitions"
         for f in order:
-            lines += ["", ""] + _fun_src(shape, f, prog, names)
+            loc = None
+            if import_form == "local":
+                loc = ["import dds"] + ["import %s" % mods[g] for g in needed
+                                        if g not in klass and any(s_["g"] == g and s_["k"] in ("call", "eval") for s_ in shape.stmts[f])]
+            lines += ["", ""] + _fun_src(shape, f, prog, names, loc)
             if unrel:
                 lines += _filler(1, "after_" + f)
         rel = mod.replace(".", "/") + ".py"
